@@ -35,6 +35,14 @@ impl Checker for C10 {
 /// builder-made working volume: `nfree` free clusters including the very last one
 pub fn mk(width: u8, nfats: u32, ext_flags: u16, nibble: u32, nfree: usize, name: &str) -> Cfg {
     let mut s = MkSpec::new(width);
+    if name.ends_with("-hid") {
+        // a volume that lives in a partition: the hidden-sectors field is one FAT long
+        s.hidden = match width {
+            12 => 1,
+            16 => 16,
+            _ => 512,
+        };
+    }
     s.nfats = nfats;
     s.ext_flags = ext_flags;
     s.nibble = nibble;
@@ -113,6 +121,11 @@ pub fn configs(th: bool) -> Vec<Cfg> {
     // a different reserved nibble in every entry (all four bits occur; an update that takes the bits from a
     // neighbouring entry, or masks one bit too many, shows)
     v.push(mk(32, 2, 0, 0x10, 5, "m32-2f-mirror-nibvar"));
+    // all four reserved bits set on every entry the explorer can touch
+    v.push(mk(32, 2, 0, 0xF, 5, "m32-2f-mirror-nibF"));
+    v.push(mk(12, 2, 0, 0, 5, "m12-2f-hid"));
+    v.push(mk(16, 2, 0, 0, 5, "m16-2f-hid"));
+    v.push(mk(32, 2, 0x80, 0, 5, "m32-2f-active0-hid"));
     // clusters of several sectors with slack sectors behind the last cluster; an odd FAT12 cluster count
     v.push(mk_geo(12, 4, 3, 40, "m12-spc4-slack3"));
     v.push(mk_geo(12, 1, 0, 41, "m12-41-clusters"));
